@@ -130,7 +130,9 @@ def main(argv=None):
         elif tot.truncated:
             print(f"PARTIAL {h.name}: budgeted exploration stopped after {tot.paths} paths (each explored path is decided "
                   f"by the solver; the unexplored remainder is covered by the thorough tier)")
-        if tot.inconclusive:
+        if tot.inconclusive and getattr(h, "partial_ok", False):
+            print(f"PARTIAL {h.name}: {tot.inconclusive} paths left undecided ({tot.inconclusive_reasons}); they count as unexplored")
+        elif tot.inconclusive:
             inconclusive.append((h.name, f"{tot.inconclusive} inconclusive paths: {tot.inconclusive_reasons}"))
         if tot.unknown:
             inconclusive.append((h.name, f"{tot.unknown} obligations unknown"))
